@@ -218,6 +218,8 @@ class GeoInterp:
             return ('E', em[0], em[1])
         if isinstance(e, ast.Dict):
             return ('D', e, module)      # a dict display used as a value (a nested table)
+        if isinstance(e, ast.Lambda):
+            return ('LAM', e, module)    # applied where it is called (tables of small lambdas)
         if isinstance(e, (ast.Tuple, ast.List, ast.Set)):
             items = []
             for x in e.elts:
@@ -436,6 +438,20 @@ class GeoInterp:
         f = src(e.func)
         ev = lambda x: self.eval(x, env, module, depth)
         kw = {k.arg: k.value for k in e.keywords if k.arg}
+        if isinstance(e.func, ast.Subscript) and not kw and \
+                not any(isinstance(a, ast.Starred) for a in e.args):
+            # an entry of a table of lambdas applied at once: TABLE[key](a, b)
+            try:
+                fv = ev(e.func)
+            except (AnalysisError, GeoKeyError):
+                fv = ('?',)
+            if fv[0] == 'LAM':
+                lam, lmod = fv[1], fv[2]
+                ps = [a.arg for a in lam.args.args]
+                if len(ps) == len(e.args) and not lam.args.vararg and not lam.args.kwarg:
+                    env2 = dict(zip(ps, (ev(a) for a in e.args)))
+                    return self.eval(lam.body, env2, lmod, depth - 1)
+                raise AnalysisError(f'geometry expression outside the grammar: `{src(e)}`')
 
         def args_of(names):
             vals = []
@@ -501,6 +517,8 @@ class GeoInterp:
                         return ('N', cand)
                 raise AnalysisError(f'geometry expression: order of `{s}` not decided by the '
                                     f'area invariants')
+        if f.split('.')[-1] == 'MappingProxyType' and len(e.args) == 1 and not kw:
+            return ev(e.args[0])        # a read-only view of the mapping it wraps
         if f in ('cast', 'typing.cast') and len(e.args) == 2 and not kw:
             return ev(e.args[1])        # typing.cast returns its second argument unchanged
         if f == 'range' and 1 <= len(e.args) <= 3 and not kw:
